@@ -214,8 +214,58 @@ fn start_lattice(o: &mut Outcome, seed: u64, c: u64, mval: u64, amounts: &[i64])
     }
 }
 
+/// Amounts and balances arriving in a self-describing text format (serde_json): an integer text
+/// either decodes to exactly that integer or is refused - it never wraps, saturates or changes sign.
+fn text_amounts(o: &mut Outcome, seed: u64) {
+    let reg = crate::types::registry();
+    let mut s = Sched::new(seed, "c17/text");
+    let mut ints: Vec<i128> = vec![
+        0, 1, -1, 127, 128, (1 << 31), (1 << 32), (1 << 53) + 1, (1 << 62), (1 << 63) - 1, 1 << 63, (1 << 63) + 1, (1 << 64) - 1, 1 << 64, (1 << 64) + 1,
+        -(1 << 63) + 1, -(1 << 63), -(1 << 63) - 1, -(1 << 64), (1 << 65) + 5,
+    ];
+    for _ in 0..6 {
+        ints.push((s.u64() as i128) - if s.chance(1, 2) { 1i128 << 63 } else { 0 });
+    }
+    for (ty, lo, hi) in [("PaymentAmount", -(1i128 << 63) + 1, (1i128 << 63) - 1), ("CustomerBalance", 0, (1i128 << 63) - 1), ("MerchantBalance", 0, (1i128 << 63) - 1)] {
+        let e = reg.get(ty);
+        for v in &ints {
+            let text = v.to_string();
+            o.events += 1;
+            o.bump("fault.wire.text-integer");
+            let r = std::panic::catch_unwind(|| (e.decode_json)(text.as_bytes()));
+            match r {
+                Err(_) => {
+                    let (loc, msg) = crate::driver::take_panic();
+                    o.violate("panic", &loc, format!("decoding the text `{}` as {} panicked: {}", text, ty, msg));
+                }
+                Ok(Ok(back)) => {
+                    let got = String::from_utf8_lossy(&back).to_string();
+                    if got.trim() != text {
+                        o.violate("text-amount-decodes-to-other-value", &format!("{}(json)", ty), format!("the text `{}` decodes as {} to the value `{}`", text, ty, got));
+                    } else if *v < lo || *v > hi {
+                        // i64::MIN is decodable as an amount (see D5); everything else out of range is not
+                        if !(ty == "PaymentAmount" && *v == -(1i128 << 63)) {
+                            o.violate("out-of-range-value-decodes", &format!("{}(json)", ty), format!("the text `{}` decodes as {}", text, ty));
+                        }
+                    } else {
+                        o.bump("probe.text_integer_accepted");
+                    }
+                }
+                Ok(Err(_)) => {
+                    if *v >= lo && *v <= hi {
+                        o.violate("valid-text-amount-refused", &format!("{}(json)", ty), format!("the in-range text `{}` is refused as {}", text, ty));
+                    } else {
+                        o.bump("probe.text_integer_refused");
+                    }
+                }
+            }
+        }
+    }
+}
+
 /// A Byzantine customer sends a wire-encoded amount for a payment agreed at another amount.
 fn wire_amounts(o: &mut Outcome, seed: u64) {
+    text_amounts(o, seed);
     let m = merchant(MSPEC);
     let hs = harvest::pay_sample(seed % 4, MSPEC);
     // control: the agreed amount is accepted
@@ -431,7 +481,7 @@ impl Prop for C17 {
         }
     }
     fn rule(&self) -> String {
-        "four case families, overflow checks on. constructors: try_new / pay_merchant / pay_customer / try_add over the full 11-value lattice {0,1,2,2^31,2^32,2^62,2^63-2,2^63-1,2^63,2^63+1,2^64-1} and random 64-bit values against i128 arithmetic. start-lattice: one real established channel per (customer, merchant) pair of the lattice; Ready::start is called, on a copy of the stage restored from its image, for every signed lattice amount and the wire-only value i64::MIN; it must succeed exactly when both results stay in [0,2^63-1], report the right error variant otherwise, never panic. wire-amount: a Byzantine customer's wire-decoded amount (i64::MIN, MIN+1, -1, 0, 1, MAX, agreed+-1, random) reaches the real merchant with a proof made for another amount: refused without panic. history: boundary-biased fault-free world histories against the i128 ledger, payments accepted end to end. Distinct = distinct case; every case is non-trivial (boundary or random values)".into()
+        "four case families, overflow checks on. constructors: try_new / pay_merchant / pay_customer / try_add over the full 11-value lattice {0,1,2,2^31,2^32,2^62,2^63-2,2^63-1,2^63,2^63+1,2^64-1} and random 64-bit values against i128 arithmetic. start-lattice: one real established channel per (customer, merchant) pair of the lattice; Ready::start is called, on a copy of the stage restored from its image, for every signed lattice amount and the wire-only value i64::MIN; it must succeed exactly when both results stay in [0,2^63-1], report the right error variant otherwise, never panic. wire-amount: a Byzantine customer's wire-decoded amount (i64::MIN, MIN+1, -1, 0, 1, MAX, agreed+-1, random) reaches the real merchant with a proof made for another amount: refused without panic; and integer texts over the same lattice (and beyond 2^64) decoded as amounts and balances through serde_json: exactly that integer or refused. history: boundary-biased fault-free world histories against the i128 ledger, payments accepted end to end. Distinct = distinct case; every case is non-trivial (boundary or random values)".into()
     }
     fn assumptions(&self) -> Vec<String> {
         vec![
@@ -440,6 +490,6 @@ impl Prop for C17 {
         ]
     }
     fn required_probes(&self, _tier: Tier) -> Vec<&'static str> {
-        vec!["probe.extreme_payment_accepted", "probe.constructors_checked", "probe.lattice_start_ok", "probe.lattice_start_refused", "fault.byzantine.wire-amount", "probe.payment_completed", "probe.boundary_balance_reached"]
+        vec!["probe.extreme_payment_accepted", "probe.constructors_checked", "probe.lattice_start_ok", "probe.lattice_start_refused", "fault.byzantine.wire-amount", "fault.wire.text-integer", "probe.text_integer_accepted", "probe.text_integer_refused", "probe.payment_completed", "probe.boundary_balance_reached"]
     }
 }
